@@ -428,6 +428,43 @@ fn shape_scripts(s: &ShapeSpec) -> (Vec<(String, Tree)>, Vec<String>) {
             }
         }
     }
+    // (6) vec2 -> vec3 promotion in EVERY call form: a 2-element value for a
+    // Vec3 field takes z from the field's documented default
+    for (vi, fld) in s.fields.iter().enumerate() {
+        let (Val::V3(full), Some(Val::V3(dflt))) = (&fld.val, &fld.default) else { continue };
+        let has_v2_field = s.fields.iter().any(|f| matches!(f.val, Val::V2(_)));
+        let vals: Vec<Val> = (0..n)
+            .map(|i| if i == vi { Val::V3([full[0], full[1], dflt[2]]) } else { s.fields[i].val.clone() })
+            .collect();
+        let expect = (s.build)(&vals);
+        for two in [
+            format!("[{}, {}]", full[0], full[1]),
+            format!("vec2({}, {})", full[0], full[1]),
+        ] {
+            let spell = |i: usize| -> String {
+                if i == vi { two.clone() } else { s.fields[i].val.spellings()[0].clone() }
+            };
+            let body: Vec<String> = (0..n).map(|i| format!("{}: {}", s.fields[i].name, spell(i))).collect();
+            ok.push((format!("{}(#{{ {} }})", s.fname, body.join(", ")), expect.clone()));
+            let is_transform = matches!(s.fields[0].val, Val::T(..))
+                && s.fields[1..].iter().all(|f| !matches!(f.val, Val::T(..)));
+            if is_transform {
+                let rest: Vec<String> = (1..n).map(|i| format!("{}: {}", s.fields[i].name, spell(i))).collect();
+                ok.push((format!("{}({}, #{{ {} }})", s.fname, spell(0), rest.join(", ")), expect.clone()));
+                ok.push((format!("{}.{}(#{{ {} }})", spell(0), s.fname, rest.join(", ")), expect.clone()));
+            }
+            if s.unique_types && !has_v2_field {
+                for perm in permutations(n) {
+                    let args: Vec<String> = perm.iter().map(|k| spell(*k)).collect();
+                    ok.push((format!("{}({})", s.fname, args.join(", ")), expect.clone()));
+                }
+                if is_transform {
+                    let args: Vec<String> = (1..n).map(spell).collect();
+                    ok.push((format!("{}.{}({})", spell(0), s.fname, args.join(", ")), expect.clone()));
+                }
+            }
+        }
+    }
     // (4) two-tree form
     if n == 2 && s.fields.iter().all(|f| matches!(f.val, Val::T(..))) {
         let vals: Vec<Val> = s.fields.iter().map(|f| f.val.clone()).collect();
